@@ -148,4 +148,22 @@ theorem splice_append_exact {dst : Buf} {d : Nat} (w : Buf) (_hroom : d + (Spec.
   rw [List.take_take, Nat.min_eq_left (by omega), take_strlen_eq_cstr, List.drop_of_length_le (by simp; omega)]
   simp
 
+/-! ### the window of `memmove` -/
+
+/-- replacing an extent that lies inside the window `[m, m + k)` commutes with cutting the window out -/
+theorem splice_window (b : Buf) (m k d : Nat) (w : Buf) (hmd : m ≤ d) (hdk : d + w.length ≤ m + k) (hb : m + k ≤ b.length) :
+    Spec.splice ((b.drop m).take k) (d - m) w = ((Spec.splice b d w).drop m).take k := by
+  obtain ⟨P, W, Q, rfl, hP, hW⟩ := exists_decomp b m k hb
+  obtain ⟨A, M, B, rfl, hA, hM⟩ := exists_decomp W (d - m) w.length (by omega)
+  have e1 : ((P ++ (A ++ (M ++ B) ++ Q)).drop m).take k = A ++ (M ++ B) := by
+    rw [List.drop_left' hP, List.take_left' hW]
+  have e2 : P ++ (A ++ (M ++ B) ++ Q) = (P ++ A) ++ (M ++ (B ++ Q)) := by simp [List.append_assoc]
+  have hPA : (P ++ A).length = d := by simp; omega
+  rw [e1, ← hA, splice_zip A M B w hM, e2]
+  have e3 : Spec.splice ((P ++ A) ++ (M ++ (B ++ Q))) d w = (P ++ A) ++ (w ++ (B ++ Q)) := by
+    rw [← hPA]; exact splice_zip (P ++ A) M (B ++ Q) w hM
+  rw [e3, List.append_assoc, List.drop_left' hP]
+  have e4 : A ++ (w ++ (B ++ Q)) = (A ++ (w ++ B)) ++ Q := by simp
+  rw [e4, List.take_left' (by simp at hW ⊢; omega)]
+
 end Tetl.C18
